@@ -14,13 +14,13 @@ import sys
 
 from vcheck import Machinery, pmap
 
-TOK_PLAIN = r"(?P<SPACE>\s+)|(?P<a>a)|(?P<b>b)|(?P<c>c)|(?P<d>d)"
+TOK_PLAIN = r"(?P<SPACE>\s+)|(?P<a>a)|(?P<b>b)|(?P<c>c)|(?P<d>d)|(?P<e>e)"
 # keywords / synonyms configuration: two regex groups map to token 'a', a WORD value to 'b'
 # the keywords are declared for a token name that exists only through the synonyms (three groups are called 'a')
 # ... and a quoted word is a token of another kind (b) whose VALUE (the text between the quotes) may equal the value of an a
 TOK_KW = r"(?P<SPACE>\s+)|(?P<X1>x)|(?P<X2>y)|(?P<W1>[k-w]+)|\"(?P<Q1>[a-z]*)\""
 KW_SYN = {'X1': 'a', 'X2': 'a', 'W1': 'a', 'Q1': 'b'}
-KW_KEY = {('a', 'kw'): 'b', ('a', 'kww'): 'c', ('a', 'kwd'): 'd'}
+KW_KEY = {('a', 'kw'): 'b', ('a', 'kww'): 'c', ('a', 'kwd'): 'd', ('a', 'kwe'): 'e'}
 
 FAMILIES = {
     # name: (NumNT, terms, MaxAlts, MaxLen, K, PrefixLen)
@@ -33,8 +33,8 @@ FAMILIES = {
     # left-recursion focused: three symbols, base alternatives (empty / 'a') and ONE sequence of 2..3 non-terminals
     # somewhere in the grammar, under every assignment of names to the roles
     'R3': (3, ['a'], 2, 3, 2, 0, 'nts'),
-    # wide common-prefix group: one symbol, up to 6 alternatives 'a' + (nothing | a | b | c | d | the symbol itself)
-    'W6': (1, ['a', 'b', 'c', 'd'], 6, 1, 2, 1),
+    # wide common-prefix group: one symbol, up to 6 alternatives 'a' + (nothing | one of 5 terminals)
+    'W6': (1, ['a', 'b', 'c', 'd', 'e'], 6, 1, 1, 1, 'terms'),
     # chain A -> B.. -> C..: each symbol uses later symbols only, as <<N>> or <<N, t>> (nullable heads of chains)
     'H3': (3, ['a', 'b'], 2, 2, 3, 0, 'chain'),
 }
@@ -168,8 +168,10 @@ def render(toks, kw, salt=0):
             lex.append(('kw', '"x"', '"mm"', '"y"')[(i + salt) % 4])
         elif t == 'c':
             lex.append('kww')
-        else:
+        elif t == 'd':
             lex.append('kwd')
+        else:
+            lex.append('kwe')
     return ' '.join(lex), [{'n': t, 'v': l.strip('"')} for t, l in zip(toks, lex)]      # value of a quoted word: without the quotes
 
 
